@@ -40,6 +40,8 @@ ASSUMPTIONS = ["client-nonce FRESHNESS is checked empirically, not proved: op `f
                "iteration counts are below 2^32 (the C code casts strtol's result to uint32_t); generated ones "
                "stay below 10^5",
                "sasl_digest_md5's caller guarantees a JID with a node and a non-NULL password (_auth checks both)",
+               "DIGEST-MD5 directive names are matched case-sensitively in lower case (RFC 2831 literals are "
+               "case-insensitive; a challenge spelling `Nonce=` is refused cleanly, not answered)",
                "allocation failure paths are not modelled",
                "byte strings of 2^60 bytes and more are outside the theorems (LibTomCrypt length guards)"]
 RULE = ("per op kind: random + boundary credentials (lengths 0..2 KiB, bytes valid in a JID node / any non-NUL "
@@ -847,7 +849,7 @@ def parse_digest_directives_multi(s):
         m = re.compile(TOKEN).match(s, i)
         if not m or m.end() >= n or s[m.end()] != 0x3D:
             raise Reject("bad directive")
-        key = m.group(0).lower()
+        key = m.group(0)  # names as sent; the client matches them case-sensitively (see ASSUMPTIONS)
         i = m.end() + 1
         if i < n and s[i] == 0x22:
             i += 1
